@@ -177,6 +177,16 @@ def main():
     must_raise("grad of non-scalar output", lambda: grad(lambda z: z * 2)(x))
     must_raise("grad of complex output", lambda: grad(lambda z: anp.sum(z) * (1 + 1j))(x))
     must_raise("elementwise_grad of complex output", lambda: elementwise_grad(lambda z: z * (1 + 1j))(x))
+    from autograd import value_and_grad as _vag, grad_and_aux as _gaa
+    from autograd.differential_operators import grad_named as _gn, multigrad_dict as _mgd
+    must_raise("value_and_grad of non-scalar output", lambda: _vag(lambda z: z * 2)(x))
+    must_raise("value_and_grad of complex output", lambda: _vag(lambda z: anp.sum(z) * (1 + 1j))(x))
+    must_raise("value_and_grad of empty output", lambda: _vag(lambda z: z[:0])(x))
+    must_raise("value_and_grad of non-scalar output, nested", lambda: grad(lambda w: anp.sum(_vag(lambda z: z * w)(x)[1]))(2.0))
+    must_raise("grad_and_aux of non-scalar output", lambda: _gaa(lambda z: (z * 2, 1.0))(x))
+    must_raise("grad_named of non-scalar output", lambda: _gn(lambda a_, b_: a_ * b_, "b_")(x, x))
+    must_raise("multigrad_dict of non-scalar output", lambda: _mgd(lambda a_, b_: a_ * b_)(x, x))
+    must_raise("grad of a size-1 but complex output", lambda: grad(lambda z: (anp.sum(z) * 1j))(x))
     must_raise("grad w.r.t. int", lambda: grad(lambda z: z * 2.0)(3))
     must_raise("grad w.r.t. str", lambda: grad(lambda z: 1.0)("abc"))
     must_raise("rollaxis axis<0", lambda: grad(lambda z: anp.sum(anp.rollaxis(z, -1)))(m))
